@@ -5,13 +5,15 @@ scale=[{"set":"b2","file":"pwr/constants.go","ident":"BlockSize","value":"2"},
        {"set":"b2","file":"pwr/validator.go","func":"Validate","match":"1024","value":"2"}]
 Q=["quick","thorough"];T=["thorough"]
 H=[{"name":"H_witness","tiers":Q,"expect":"violation","bounds":"vacuity witness"}]
-def grid(nfs,damages,cancels,modes): return [{"nf":n,"damage":d,"cancel":c,"mode":m,"instants":220} for n in nfs for d in damages for c in cancels for m in modes if d < (1<<n) or d==256]
+def grid(nfs,damages,cancels,modes): return [{"nf":n,"damage":d,"cancel":c,"mode":m,"instants":220} for n in nfs for d in damages for c in cancels for m in modes if d < (1<<n) or d>=256]
 H.append({"name":"H_cancel","tiers":Q,"scale":"b2","preemptions":1,"bounds":"B=2, wound channel capacity scaled 1024->2: 2 files; undamaged / last file damaged / all damaged / first file deleted; no cancellation and cancellation before the call; fail-fast and wounds-file modes; all schedules with at most 1 preemption",
   "param_sets":grid([2],[0,2,3,256],[0,1],[0,1])})
 H.append({"name":"H_cancel","tiers":Q,"scale":"b2","preemptions":0,"bounds":"2 files, same damage patterns: cancellation right before each of the first 220 visible operations (channel/sync/file-system calls of any goroutine) under the canonical schedule",
   "param_sets":grid([2],[0,2,3,256],[2],[0,1])})
 H.append({"name":"H_cancel","tiers":Q,"scale":"b2","preemptions":0,"bounds":"3 files all damaged (more wounds than the scaled channel holds), every non-preemptive schedule",
   "param_sets":grid([3],[7],[0,1,2],[0,1,2])})
+H.append({"name":"H_cancel","tiers":Q,"scale":"b2","preemptions":0,"bounds":"target directory missing / target is a regular file: all three consumers, no cancellation, cancellation before the call and at any of the first 220 visible operations",
+  "param_sets":grid([2],[512,1024],[0,1,2],[0,1,2])})
 H.append({"name":"H_cancel","tiers":T,"scale":"b2","preemptions":2,"bounds":"2-3 files, all damage patterns, all cancel modes, all consumers; at most 2 preemptions","max_seconds":1700,
   "param_sets":grid([2,3],[0,1,2,3,4,7,256],[0,1,2],[0,1,2])})
 json.dump({"property":"C16","package":"c16","scale":scale,"harnesses":H,
